@@ -361,6 +361,8 @@ class ConvexSpheropolyhedron(Shape3D):
         old_centroid = self._polyhedron.centroid
         self._polyhedron.centroid = np.array([0, 0, 0])
         data = self.to_json(["vertices", "radius", "volume"])
+        # Copy: the internal array is moved back to the old centroid below.
+        data["vertices"] = data["vertices"].copy()
         hoomd_dict = _map_dict_keys(data, key_mapping=_hoomd_dict_mapping)
         hoomd_dict["centroid"] = [0, 0, 0]
 
